@@ -1,12 +1,91 @@
 // extra.cc -- oracles for C06 (malformed requests), C17 (misuse), C18 (purge by time); filled in step by step
 #include "harness.h"
 #include <string.h>
-void oracle_misuse_op(const Op& op) { (void)op; H.ops_noop++; }
+
+// C17: hardened builds detect double free, overflow and free-list corruption (secure and debug builds only)
+size_t heap_used_sum(mi_heap_t* h, size_t* pages);
+static bool local_plain_small(Block* b) {
+  return b && b->prog == T->prog && b->heap >= 0 && H.heaps[b->heap].prog == T->prog && b->align == 0 && b->offset == 0 && !b->odd_origin && b->usable == b->req && b->usable >= 8 && b->usable + 8 <= 8192 && b->filled;
+}
+static int take_error(int bit) { int n = (T->got_err_mask & bit) ? T->got_err_count : 0; T->got_err_mask &= ~bit; if (!T->got_err_mask) T->got_err_count = 0; return n; }
+
+void oracle_misuse_op(const Op& op) {
+  if (!is_padded_build()) { H.ops_noop++; return; }
+  Block* b = (op.slot >= 0 && op.slot < (int)H.slots.size()) ? H.slots[op.slot] : nullptr;
+  if (!local_plain_small(b)) { H.ops_noop++; return; }
+  mi_heap_t* h = heap_ptr(b->heap);
+  if (op.code == OP_double_free) {
+    // another live block of the same thread in the same 64 KiB page keeps the area alive
+    bool neighbour = false;
+    for (auto& kv : H.live) { Block* o = kv.second; if (o != b && o->prog == T->prog && o->heap == b->heap && (((uintptr_t)o->p ^ (uintptr_t)b->p) >> 16) == 0 && o->usable == b->usable) neighbour = true; }
+    if (!neighbour) { H.ops_noop++; return; }
+    block_verify(b, "before the double free"); model_remove(b); H.slots[b->slot] = nullptr;
+    const size_t used0 = heap_used_sum(h, nullptr);
+    void* p = b->p; delete b;
+    H.misuse_expected++;
+    mi_free(p);
+    expect_errors(EB_EAGAIN);
+    mi_free(p);                               // the misuse
+    int n = take_error(EB_EAGAIN);
+    if (n != 1) sim_violation("double_free_undetected", "second mi_free(%p) of a thread-local block whose page still holds another live block was %s (EAGAIN reported %d times)", p, n == 0 ? "not reported" : "reported more than once", n);
+    const size_t used1 = heap_used_sum(h, nullptr);
+    if (used1 + 1 != used0) sim_violation("double_free_effect", "after a detected double free the heap's used count went from %zu to %zu (expected exactly one block less)", used0, used1);
+    H.misuse_detected++; probe(PR_misuse_detected);
+    verify_all_live("after a detected double free");
+  }
+  else if (op.code == OP_overflow_byte) {
+    block_verify(b, "before the overflow"); model_remove(b); H.slots[b->slot] = nullptr;
+    uint8_t* q = b->p + b->req; const uint8_t oldv = *q; *q = (uint8_t)(oldv ^ (uint8_t)(1 + (op.a % 255)));   // a different (foreign) value
+    void* p = b->p; size_t req = b->req; delete b;
+    H.misuse_expected++;
+    expect_errors(EB_EFAULT);
+    mi_free(p);
+    int n = take_error(EB_EFAULT);
+    if (n < 1) sim_violation("overflow_undetected", "a foreign byte written just past the requested size (%zu) of block %p was not reported when the block was freed", req, p);
+    H.misuse_detected++; probe(PR_misuse_detected);
+    if (is_dbg_build()) sim_finish_ok();      // debug-build assertions after a detected error are outside the property
+    verify_all_live("after a detected overflow");
+  }
+  else if (op.code == OP_corrupt_free_link) {
+    block_verify(b, "before the corruption"); model_remove(b); H.slots[b->slot] = nullptr;
+    void* p = b->p; const size_t req = b->req; const int mh = b->heap; delete b;
+    mi_free(p);
+    uint64_t forged = mix64(op.a, 0xF0F0) | 1;      // an odd value never decodes to an aligned in-page pointer by accident of alignment alone
+    memcpy(p, &forged, sizeof forged);              // the program overwrites the free-list link of the freed block
+    H.misuse_expected++;
+    expect_errors(EB_EFAULT);
+    T->misuse_in_progress = true;
+    // allocate in that class until the allocator must have walked past the forged link (kept live meanwhile, released afterwards)
+    int detected = 0; const size_t limit = 2 * (65536 / (req + 8)) + 16;
+    std::vector<Block*> tmp;
+    for (size_t i = 0; i < limit && !detected; i++) {
+      sched_call_begin();
+      void* q = (mh == T->deflt) ? mi_malloc(req) : mi_heap_malloc(heap_ptr(mh), req);
+      if (T->got_err_mask & EB_EFAULT) detected = 1;
+      if (!q) continue;
+      Block* nb = new Block(); nb->p = (uint8_t*)q; nb->req = req; nb->id = H.next_block_id++; nb->prog = T->prog; nb->subproc = T->subproc; nb->slot = -1; nb->heap = mh;
+      sched_set_passthrough(true); nb->usable = mi_usable_size(q); sched_set_passthrough(false);
+      if (!os_in_window(q) || !os_range_accessible(q, nb->usable)) sim_violation("foreign_memory", "after a corrupted free-list link the allocator returned %p which is not inside memory it obtained from the OS", q);
+      if (!mi_is_in_heap_region(q)) sim_violation("foreign_memory", "after a corrupted free-list link the allocator returned %p which is outside all heap regions", q);
+      model_insert(nb, "malloc after free-list corruption"); block_fill(nb); tmp.push_back(nb);
+    }
+    T->misuse_in_progress = false;
+    take_error(EB_EFAULT);
+    if (!detected) sim_violation("corruption_undetected", "the overwritten free-list link of freed block %p (forged value 0x%llx) was followed or ignored without a report during %zu allocations of its size class", p, (unsigned long long)forged, limit);
+    H.misuse_detected++; probe(PR_misuse_detected);
+    if (is_dbg_build()) sim_finish_ok();      // debug-build assertions after a detected error are outside the property
+    for (Block* nb : tmp) { block_verify(nb, "after free-list corruption"); model_remove(nb); sched_call_begin(); mi_free(nb->p); delete nb; }
+    if (is_dbg_build()) sim_finish_ok();
+    verify_all_live("after a detected free-list corruption");
+  }
+}
+
 
 // C06: malformed or oversized requests fail cleanly and have no other effect
 size_t heap_used_sum(mi_heap_t* h, size_t* pages);
 #include <errno.h>
 #include <stdint.h>
+#include <vector>
 void oracle_bad_request(const Op& op) {
   const int kind = (int)op.a;
   const size_t n = (size_t)op.b;          // a small well-formed size used where one is needed
